@@ -57,6 +57,7 @@ def run(ctx):
     res.bounds.update(dict(symbolic_path='<= %d chars over {/ . a}' % L, segments='<= %d of %d catalogue segments x 3 ways in' % (4 if T else 3, NS),
                            faults='12 fault positions x 5 error kinds x vanish x If-Modified-Since x 4 files', clock='mtime and header as whole seconds, relation -2..2'))
     res.outside += ['symlinks, Windows', 'byte-exact streaming through werkzeug FileWrapper beyond get_data()', 'sub-second mtimes', 'paths longer than the bound']
-    res.assumptions += ['os.path.normpath (C) modelled by CPython\'s own pure-Python implementation in the symbolic obligation, validated against the C function on every string <= 6 over the alphabet each run',
+    res.assumptions += ['the scratch filesystem keeps file names byte for byte (no Unicode normalisation; true for the Linux filesystems of this sandbox) - the `faithful` obligation stores non-NFC names',
+                        'os.path.normpath (C) modelled by CPython\'s own pure-Python implementation in the symbolic obligation, validated against the C function on every string <= 6 over the alphabet each run',
                         'isfile stub "every candidate exists" in the symbolic confinement obligation']
     return res
